@@ -16,7 +16,8 @@ CHECKS = {
    ref="3/C01"),
  "C13": dict(cat="model_checking",
    text="Explicit-state BFS (replay on a freshly booted machine, fork snapshots) over DelayManager operations on the "
-        "machine-wide and a mode-owned manager, clock.schedule_interval tasks and the timer device driven by its "
+        "machine-wide and a mode-owned manager (incl. stopping the owning mode with its stopping queue held and "
+        "released later), clock.schedule_interval tasks and the timer device driven by its "
         "control events, with time choices on-time / late wake-up / before the deadline; a reference model is "
         "compared after every transition.",
    note="Trusted: virtual loop, reference models in props/c13.py. Bounds: BFS depth 5-7 (quick) / 6-10 (thorough), "
@@ -37,7 +38,7 @@ CHECKS = {
         "relay/boolean handler lists; BFS over a use_wait_queue mode started by a queue event with waiting handlers "
         "on the outer and on the mode's own queue event.",
    note="Trusted: virtual loop, monitors in props/c02.py. Bounds: <=3/4 handlers per queue event, one nested and one "
-        "concurrent queue event; relay/boolean lists <=4/5 handlers over 6 return values.",
+        "concurrent queue event; relay/boolean lists <=4/5 handlers over 7 return values (incl. a blocking result).",
    technique="explicit-state BFS of the implementation (replay + fork snapshots) + exhaustive enumeration",
    ref="3/C02"),
  "C18": dict(cat="model_checking",
@@ -122,7 +123,7 @@ CHECKS = {
         "decide the enabled state, and no flipper/autofire rule or energised flipper coil exists while no ball is in play.",
    note="Trusted: virtual platform rule table + call counting wrappers, wiring table in props/c10.py; the virtual platform "
         "gets a recording set_delayed_pulse_on_hit_rule. No ball search / real ball devices in this machine; BFS depth "
-        "5 (quick) / 7 (thorough) per device group with fingerprint merge audit.",
+        "6 (quick) / 7 (thorough) per device group with fingerprint merge audit.",
    technique="explicit-state BFS of the implementation with a reference model (replay + fork snapshots)",
    ref="3/C10"),
  "C07": dict(cat="model_checking",
@@ -170,7 +171,8 @@ CHECKS = {
         "iff it drained to zero or an end was requested, machine.game cleared after game_ended.",
    note="Trusted: virtual loop, Grammar automaton in props/c06.py. Requests where the statement is silent (extra ball after "
         "an end-game request, tilt while already tilted) are not judged. BFS depth 5 on 3 configurations (quick) / 6 on 5 "
-        "(thorough) with fingerprint merge audit.",
+        "(thorough) with fingerprint merge audit, plus a focused long-game search (start / drain / extra ball / end ball / "
+        "time only) to depth 9 on 2 (quick) / 11 on 4 configurations (thorough).",
    technique="explicit-state BFS of the implementation with a grammar automaton oracle (replay + fork snapshots)",
    ref="3/C06"),
  "C17": dict(cat="model_checking",
